@@ -34,7 +34,13 @@ def run_pipeline(mc, pil, keep_all, thr, psm_cut, seed):
     """Run the real get_protein_group_results on method config [mc], recording every oracle."""
     from picked_group_fdr import fdr, graphs
     from picked_group_fdr import picked_group_fdr as pgf
-    rec = {"scores": [], "cutoffs": [], "perms": [], "splits": []}
+    from picked_group_fdr import grouping as _grouping
+    rec = {"scores": [], "cutoffs": [], "perms": [], "splits": [], "rescue": []}
+    real_rescue_cut = _grouping.RescuedGrouping._calculate_rescue_score_cutoff
+
+    def rescue_cut(self, results, threshold):
+        real_rescue_cut(self, results, threshold)
+        rec["rescue"].append([[[float(x.score), float(x.qValue)] for x in results], float(self.score_cutoff)])
     real_shuffle = np.random.shuffle
     real_cut = fdr.calc_post_err_prob_cutoff
     real_split = graphs.ConnectedProteinGraphs._split_single_connected_component
@@ -50,7 +56,7 @@ def run_pipeline(mc, pil, keep_all, thr, psm_cut, seed):
 
     def cut(peps, q):
         v = real_cut(peps, q)
-        rec["cutoffs"].append([[gens.fr(p) for p in peps], gens.fr(v)])
+        rec["cutoffs"].append([[gens.fr(p) for p in peps], gens.fr(v), gens.fr(q)])
         return v
 
     def split(self, G, A, B):
@@ -72,6 +78,7 @@ def run_pipeline(mc, pil, keep_all, thr, psm_cut, seed):
     np.random.shuffle = shuffle
     fdr.calc_post_err_prob_cutoff = cut
     graphs.ConnectedProteinGraphs._split_single_connected_component = split
+    _grouping.RescuedGrouping._calculate_rescue_score_cutoff = rescue_cut
     st.calculate_score = score
     try:
         try:
@@ -84,6 +91,7 @@ def run_pipeline(mc, pil, keep_all, thr, psm_cut, seed):
         np.random.shuffle = real_shuffle
         fdr.calc_post_err_prob_cutoff = real_cut
         graphs.ConnectedProteinGraphs._split_single_connected_component = real_split
+        _grouping.RescuedGrouping._calculate_rescue_score_cutoff = real_rescue_cut
         if had_inst:
             st.calculate_score = real_score
         else:
@@ -94,7 +102,7 @@ def run_pipeline(mc, pil, keep_all, thr, psm_cut, seed):
 
 def render_tabs(pil, rec):
     scores = clist(cpair(clist(render_pinfo(i) for i in inf), cQ(Fraction(v))) for inf, v in rec["scores"])
-    cuts = clist(cpair(clist(cQ(Fraction(p)) for p in peps), cQ(Fraction(v))) for peps, v in rec["cutoffs"])
+    cuts = clist(cpair(cpair(clist(cQ(Fraction(p)) for p in peps), cQ(Fraction(q))), cQ(Fraction(v))) for peps, v, q in rec["cutoffs"])
     svals = sorted({Fraction(v) for _, v in rec["scores"]})
     pw = clist(cpair(cQ(s), cQ(Fraction(*float(np.power(10, float(s) * -1)).as_integer_ratio()))) for s in svals)
     prots = sorted({p for _, _, ps in pil for p in ps})
@@ -110,6 +118,7 @@ def gen_pil(rng, max_prot=8, max_pep=14):
     prots = base + [("REV__" + b) for b in base if rng.random() < 0.7]
     pil = []
     style = rng.random()
+    near = rng.random() < 0.2      # nearly-equal PEPs (a few 2^-24 apart, relatively): distinct scores closer than 1e-6
     for k in range(rng.randint(1, max_pep)):
         decoy = rng.random() < 0.35
         pool = [p for p in prots if p.startswith("REV__") == decoy] or prots
@@ -121,12 +130,15 @@ def gen_pil(rng, max_prot=8, max_pep=14):
             ps = rng.sample(pool, rng.randint(1, min(3, len(pool))))
         r = rng.random()
         pep = rng.choice([1e-5, 1e-3, 0.004, 0.05, 0.3]) if r < 0.6 else rng.random() ** rng.choice([1, 3, 8])
+        if near:
+            pep = rng.choice([1e-3, 0.004]) * (1 + rng.choice([0, 1, 2, 3]) * 2.0 ** -24)
         pil.append([f"PEP{k}K", gens.fr(pep), ps])
     return pil
 
 
 class PipelineSuite(Suite):
     has_py_property = True
+    monitor_all = True
 
     def py_property(self, case, out):
         return pipeline_property_violation(case, out)
@@ -139,7 +151,7 @@ class PipelineSuite(Suite):
     runf = "run07"
     deterministic = False
     rule = ("peptide lists over 2-8 target proteins and their decoy twins (shared-only chains, random lists, PEPs from five "
-            "levels or arbitrary doubles), every shipped method file, both keep-all settings, thresholds 0.01/0.2/1; scores, "
+            "levels or arbitrary doubles), every shipped method file, both keep-all settings, thresholds 0.01/0.2/0.5/1, PSM-level cutoffs 0.01/0.1/0.5; scores, "
             "PEP cutoffs, shuffles and splitter answers are recorded from the run and replayed as the model's oracles; "
             "non-trivial = a decoy and a target row and at least one withheld or removed group")
 
@@ -152,7 +164,7 @@ class PipelineSuite(Suite):
         for m in methods:
             for _ in range(n):
                 yield {"method": m, "pil": gen_pil(rng), "keep_all": rng.random() < 0.3,
-                       "thr": gens.fr(rng.choice([0.01, 0.2, 1.0])), "psm_cut": gens.fr(rng.choice([0.01, 0.1])),
+                       "thr": gens.fr(rng.choice([0.01, 0.2, 0.5, 1.0])), "psm_cut": gens.fr(rng.choice([0.01, 0.1, 0.5])),
                        "seed": rng.randint(1, 2 ** 31 - 1)}
 
     def config(self, case):
@@ -171,7 +183,7 @@ class PipelineSuite(Suite):
         nden = 2 * len({p for _, _, ps in case["pil"] for p in ps}) + 5
         thr = gens.small_fraction_of(float(Fraction(case["thr"])), nden) or Fraction(case["thr"])
         return cpair(out["method_term"], render_tabs(case["pil"], out["rec"]), render_pil(case["pil"]),
-                     cbool(case["keep_all"]), cQ(thr),
+                     cbool(case["keep_all"]), cQ(thr), cQ(Fraction(case["psm_cut"])),
                      clist(clist(cnat(i) for i in p) for p in out["rec"]["perms"]))
 
     def render_in(self, case):
@@ -213,6 +225,17 @@ def pipeline_property_violation(case, out):
         if out.get("exc_type") in ("AttributeError", "KeyError", "TypeError", "IndexError") and "No proteins" not in out.get("msg", ""):
             return "internal-error-" + out["exc_type"]
         return None
+    rec0 = out.get("rec") or {}
+    # C06: the peptide-level PEP cutoff is the one of the PSM-level FDR the caller gave (not of any other option)
+    if "psm_cut" in case and any(Fraction(c[2]) != Fraction(case["psm_cut"]) for c in rec0.get("cutoffs", []) if len(c) > 2):
+        return "peptide-PEP-cutoff-not-derived-from-the-PSM-level-FDR-cutoff"
+    # C04: the rescue cutoff is the PEP equivalent of the worst-scoring first-pass group accepted at the protein-group FDR threshold
+    # (of the worst-scoring group when none is accepted)
+    thr_f = float(Fraction(case["thr"])) if "thr" in case else None
+    for res1, used in (rec0.get("rescue", []) if thr_f is not None else []):
+        acc = [s for s, q in res1 if q < thr_f] or [s for s, q in res1]
+        if acc and float(np.power(10, min(acc) * -1)) != used:
+            return "rescue-cutoff-not-the-worst-group-accepted-at-the-protein-group-FDR-threshold"
     rows = out["ok"]
     sc = [Fraction(r["score"]) for r in rows]
     if any(a < b for a, b in zip(sc, sc[1:])):
